@@ -152,7 +152,8 @@ pub fn first_diff(a: &str, b: &str) -> String {
         let y = lb.get(k).copied().unwrap_or("<end>");
         if x != y {
             let prev = if k > 0 { la[k - 1] } else { "<start>" };
-            return format!("at={} prev1=[{}] diff1=[{}] diff2=[{}]", k, prev, x, y);
+            let next = la.get(k + 1).copied().unwrap_or("<end>");
+            return format!("at={} prev1=[{}] diff1=[{}] diff2=[{}] next1=[{}]", k, prev, x, y, next);
         }
     }
     "no-difference".to_string()
